@@ -73,14 +73,10 @@ fn vq_c04_ri_on_remote_open_stream() {
     let stream_id = StreamId::from_varint(v(id));
     // RFC 9000 2.1: the two low bits carry initiator and direction; the rest is the ordinal of the stream
     let index = (id >> 2) as i128;
-    // RFC 9000 4.6 / 19.11 allow MAX_STREAMS values up to and including 2^60.  At exactly 2^60 the first
-    // stream id beyond the limit (4 * 2^60 + type bits) is not representable and the function under contract
-    // `.expect()`s it: this obligation states that the function is total on the permitted range.  Kani's
-    // assert also assumes, so everything below it is the residual contract outside that input class.
-    assert!(
-        StreamId::nth(stream_id.initiator(), stream_id.stream_type(), old.advertised as u64).is_some(),
-        "C04/ri.on_remote_open_stream/total_for_every_limit_up_to_2_60"
-    );
+    // RFC 9000 4.6 / 19.11 allow MAX_STREAMS values up to and including 2^60; the builder covers that whole
+    // range.  (Before the fix commit 4b04728 the function `.expect()`ed the first stream id beyond the limit,
+    // which is not representable for a limit of exactly 2^60, and panicked: the call below then fails the
+    // harness' safety obligation.)
     let r = ri.on_remote_open_stream(stream_id);
     let new = abs(&ri);
     let ok = r.is_ok();
@@ -90,7 +86,7 @@ fn vq_c04_ri_on_remote_open_stream() {
     };
     // RFC 9000 4.6: "An endpoint that receives a frame with a stream ID exceeding the limit it has sent MUST treat
     // this as a connection error of type STREAM_LIMIT_ERROR"
-    assert!(ri_remote_open_err_iff_at_or_over_limit(old, index, ok), "C04/ri.on_remote_open_stream/err_iff_index_at_or_over_advertised#outside-known");
+    assert!(ri_remote_open_err_iff_at_or_over_limit(old, index, ok), "C04/ri.on_remote_open_stream/err_iff_index_at_or_over_advertised");
     assert!(ri_remote_open_err_code(ok, code), "C04/ri.on_remote_open_stream/err_is_stream_limit_error");
     assert!(ri_remote_open_state_unchanged(old, new), "C04/ri.on_remote_open_stream/state_unchanged");
     kani::cover!(ok && index == old.advertised - 1, "reach:last_allowed_stream");
@@ -99,6 +95,7 @@ fn vq_c04_ri_on_remote_open_stream() {
     kani::cover!(ok && id & 3 == 3, "reach:server_uni");
     kani::cover!(ok && id & 3 == 0, "reach:client_bidi");
     kani::cover!(old.advertised == MAX_STREAMS as i128 - 1, "reach:limit_2_60_minus_1");
+    kani::cover!(ok && old.advertised == MAX_STREAMS as i128, "reach:limit_2_60_accepts_every_stream");
 }
 
 //@ harness props=C04 tier=quick level=full timeout=300
